@@ -3,6 +3,7 @@
 from ..r_mdl import rule_record_loop, rule_v2000_books, rule_rxn_roles, rule_mrv_attributes
 from ..r_readers import rule_raise_family, MDL
 from ..r_reaction import rule_role_zip
+from ..r_hygiene import rule_hygiene as _rule_hygiene
 
 LEVEL = 'other'
 EXEMPT = {
@@ -30,3 +31,4 @@ def run(ck, repo):
     rule_rxn_roles(ck, repo, 'C11.D1-reaction-roles')
     rule_mrv_attributes(ck, repo, 'C11.D1-mrv-attributes')
     rule_role_zip(ck, repo, 'C11.D1-role-pairing', lambda f: f.module.name in ('chython.files.RDFrw', 'chython.files.MRVrw'), floor=3)
+    _rule_hygiene(ck, repo, 'C11.H-dataflow-hygiene', 'C11')
